@@ -6,7 +6,7 @@ from ..gen import G, WINDOW, fmt_date_layout, LAYOUTS
 from ..common import run_apps, app, out_of, sig
 from ..core import unhx
 
-THEOREMS = ['interval_exact', 'inverted_is_empty', 'filter_eq_delete', 'innermost_wins', 'keywords', 'summary_selects_day', 'summary_date_selects_day', 'day_count_advances', 'yesterday_is_previous_day', 'parsed_date_is_calendar_day', 'instants_order_is_calendar_order', 'period_is_calendar_interval']
+THEOREMS = ['interval_exact', 'inverted_is_empty', 'filter_eq_delete', 'innermost_wins', 'keywords', 'summary_selects_day', 'summary_date_selects_day', 'day_count_advances', 'yesterday_is_previous_day', 'parsed_date_is_calendar_day', 'instants_order_is_calendar_order', 'period_is_calendar_interval', 'day_number_reads_back', 'summary_date_is_that_day']
 LEVEL = 'proof'
 RULE = ('logs with days in any order and repeated dates x every (begin, end) over a 5-day window incl. absent / equal / inverted / outside x '
         '{reg, bal, csv log, print, report totals / quantity / unresolved} x flag position {global, sub-command, both with different values} x keywords '
